@@ -46,7 +46,7 @@ func c12(c *rig.Ctx) {
 	parallel(na, workers, func(i int) { c12AddressMap(c, st, i) })
 	parallel(na, workers, func(i int) { c12CommitClosure(c, st, i) })
 	parallel(c.Pick(60, 800), workers, func(i int) { c12Blob(c, st, i) })
-	parallel(c.Pick(60, 1200), workers, func(i int) { c12JSON(c, st, i) })
+	parallel(c.Pick(400, 8000), workers, func(i int) { c12JSON(c, st, i) })
 	st.flush(c)
 	c.Require(st.get("c12.edits.at_chunk_boundary") > 0, "no edit at a chunk boundary")
 	c.Require(st.get("c12.routes.height_changed") > 0, "no route changed the tree height")
@@ -269,7 +269,12 @@ func c12Maps(c *rig.Ctx, st *stats, idx, total int) {
 	emptyMap := w.build(empty)
 
 	// route 1: random insertion order from the empty map, batches of 1..n
-	for _, style := range []int{0, 1, 2} {
+	heavy := w.kp.n() > 8000 // the 20 000-entry class runs a sample of the routes to keep the quick tier short
+	styles := []int{0, 1, 2}
+	if heavy {
+		styles = []int{r.Intn(3)}
+	}
+	for _, style := range styles {
 		m, _ := k.transform(emptyMap, empty, k.target, k.batches(n), false, style, nil)
 		k.compare(fmt.Sprintf("insert-from-empty/style%d", style), m, nil)
 	}
@@ -310,6 +315,9 @@ func c12Maps(c *rig.Ctx, st *stats, idx, total int) {
 	}
 	// route 4: a different ancestor, with noise edits on the way
 	for rep := 0; rep < 2; rep++ {
+		if heavy && rep == 0 && r.Intn(2) == 0 {
+			continue
+		}
 		other := w.randDict(r, []float64{0.1, 0.5, 0.9}[r.Intn(3)])
 		if rep == 1 { // a near ancestor: few differences, mostly shared chunks
 			other = k.target.clone()
@@ -802,8 +810,9 @@ func c12JSON(c *rig.Ctx, st *stats, idx int) {
 	root, err := tree.SerializeJsonToAddr(bg, ns, gmstypes.JSONDocument{Val: doc})
 	rig.Must(wrapErr("SerializeJsonToAddr", err))
 	var cur gmstypes.MutableJSON = tree.NewIndexedJsonDocument(root, ns)
-	nedits := 1 + r.Intn(5)
+	nedits := 1 + r.Intn(12)
 	var trace []string
+	var lastCanon *tree.Node
 	for e := 0; e < nedits; e++ {
 		idoc, ok := cur.(tree.IndexedJsonDocument)
 		if !ok {
@@ -836,48 +845,75 @@ func c12JSON(c *rig.Ctx, st *stats, idx int) {
 			st.add("c12.json.edit_errors(ignored: C17)", 1)
 			return
 		}
-		if changed {
-			st.add("c12.json.edits_changed", 1)
+		if !changed {
+			continue
 		}
+		st.add("c12.json.edits_changed", 1)
+		// after every effective edit: the tree must be the bulk serialisation of the bytes it now holds
+		idoc, ok = cur.(tree.IndexedJsonDocument)
+		if !ok {
+			st.add("c12.json.fell_back_to_in_memory", 1)
+			return
+		}
+		editedRoot, err := tree.SerializeJsonToAddr(bg, ns, idoc) // returns the document's own root
+		rig.Must(err)
+		got, err := idoc.GetBytes(bg)
+		if err != nil {
+			st.add("c12.json.getbytes_errors(ignored: C17)", 1)
+			return
+		}
+		var v any
+		if err := json.Unmarshal(got, &v); err != nil {
+			c.Violation("c12/json/edited-bytes-invalid", "bytes of an edited IndexedJsonDocument are not valid JSON: "+err.Error(), map[string]any{"case": name, "edits": trace})
+			return
+		}
+		canonDoc := gmstypes.JSONDocument{Val: v}
+		canonBytes, err := gmstypes.MarshallJson(bg, canonDoc)
+		rig.Must(err)
+		if !bytes.Equal(canonBytes, got) {
+			// the edited document is a different byte string than the bulk serialisation of the same value
+			// (formatting/key order): not the same content at the chunk level, nothing to compare
+			st.add("c12.json.bytes_not_comparable", 1)
+			return
+		}
+		canonRoot, err := tree.SerializeJsonToAddr(bg, ns, canonDoc)
+		rig.Must(wrapErr("SerializeJsonToAddr", err))
+		st.add("c12.json.indexed_edits_compared", 1)
+		if canonRoot.Level() >= 1 {
+			st.add("c12.json.multi_chunk_compared", 1)
+		}
+		if canonRoot.HashOf() != editedRoot.HashOf() {
+			c.Violation("c12/json/incremental-edit/hash", fmt.Sprintf("JSON document of %d bytes: tree after IndexedJsonDocument edits hashes to %s, bulk serialisation of the same bytes to %s",
+				len(got), editedRoot.HashOf(), canonRoot.HashOf()), map[string]any{"case": name, "edits": trace, "levels": []int{editedRoot.Level(), canonRoot.Level()},
+				"first_differing_chunk": jsonChunkDiff(ns, editedRoot, canonRoot)})
+			return
+		}
+		lastCanon = canonRoot
 	}
-	idoc, ok := cur.(tree.IndexedJsonDocument)
-	if !ok {
-		st.add("c12.json.fell_back_to_in_memory", 1)
+	if lastCanon != nil && lastCanon.Level() >= 1 {
+		c.Distinct("json|" + lastCanon.HashOf().String())
+	}
+}
+
+// jsonChunkDiff describes where the leaf sequences of two JSON trees holding the same bytes first differ.
+func jsonChunkDiff(ns tree.NodeStore, a, b *tree.Node) map[string]any {
+	leaves := func(root *tree.Node) (out [][]byte) {
+		_ = tree.WalkNodes(bg, root, ns, func(_ context.Context, nd *tree.Node) error {
+			if nd.IsLeaf() {
+				out = append(out, append([]byte(nil), nd.GetValue(0)...))
+			}
+			return nil
+		})
 		return
 	}
-	editedRoot, err := tree.SerializeJsonToAddr(bg, ns, idoc) // returns the document's own root
-	rig.Must(err)
-	got, err := idoc.GetBytes(bg)
-	if err != nil {
-		st.add("c12.json.getbytes_errors(ignored: C17)", 1)
-		return
+	la, lb := leaves(a), leaves(b)
+	tail := func(x []byte) string { return string(x[max(0, len(x)-60):]) }
+	off := 0
+	for i := 0; i < len(la) && i < len(lb); i++ {
+		if !bytes.Equal(la[i], lb[i]) {
+			return map[string]any{"leaf": i, "offset": off, "edited_len": len(la[i]), "bulk_len": len(lb[i]), "edited_leaf_ends": tail(la[i]), "bulk_leaf_ends": tail(lb[i])}
+		}
+		off += len(la[i])
 	}
-	var v any
-	if err := json.Unmarshal(got, &v); err != nil {
-		c.Violation("c12/json/edited-bytes-invalid", "bytes of an edited IndexedJsonDocument are not valid JSON: "+err.Error(), map[string]any{"case": name, "edits": trace})
-		return
-	}
-	canonDoc := gmstypes.JSONDocument{Val: v}
-	canonBytes, err := gmstypes.MarshallJson(bg, canonDoc)
-	rig.Must(err)
-	if !bytes.Equal(canonBytes, got) {
-		// the edited document is a different byte string than the bulk serialisation of the same value
-		// (formatting/key order): not the same content at the chunk level, nothing to compare
-		st.add("c12.json.bytes_not_comparable", 1)
-		return
-	}
-	canonRoot, err := tree.SerializeJsonToAddr(bg, ns, canonDoc)
-	rig.Must(wrapErr("SerializeJsonToAddr", err))
-	st.add("c12.json.indexed_edits_compared", 1)
-	if canonRoot.Level() >= 1 {
-		st.add("c12.json.multi_chunk_compared", 1)
-	}
-	if canonRoot.HashOf() != editedRoot.HashOf() {
-		c.Violation("c12/json/incremental-edit/hash", fmt.Sprintf("JSON document of %d bytes: tree after IndexedJsonDocument edits hashes to %s, bulk serialisation of the same bytes to %s",
-			len(got), editedRoot.HashOf(), canonRoot.HashOf()), map[string]any{"case": name, "edits": trace, "levels": []int{editedRoot.Level(), canonRoot.Level()}})
-		return
-	}
-	if canonRoot.Level() >= 1 {
-		c.Distinct("json|" + canonRoot.HashOf().String())
-	}
+	return map[string]any{"leaves_edited": len(la), "leaves_bulk": len(lb)}
 }
